@@ -98,6 +98,9 @@ pub fn gen(seed: u64, cases: usize, flavour: &str, path: &str) {
     let mut g = Gen::new(seed, path);
     let thorough = flavour.contains("thorough");
     let batchy = flavour.contains("batch");
+    // "dup": quantities from a tiny set, so that resting orders that agree in symbol, type and quantity
+    // (and differ only in price and id) are common; the default makes quantities pairwise distinct
+    let dup = flavour.contains("dup");
     let grid = |r: &mut Rng| (r.below(12) + 1) as f64 * 0.25;
     for _ in 0..cases {
         g.line("RESET");
@@ -136,7 +139,8 @@ pub fn gen(seed: u64, cases: usize, flavour: &str, path: &str) {
                     let t = kind * 2 + if side_sell { 0 } else { 1 };
                     let sym = SYMS[if g.rng.chance(1, 15) { 3 } else { g.rng.below(3) as usize }];
                     qty += 1;
-                    let sh = qty as f64 + if g.rng.chance(1, 5) { 0.5 } else { 0.0 };
+                    let sh = if dup { (1 + g.rng.below(3)) as f64 } else { qty as f64 + if g.rng.chance(1, 5) { 0.5 } else { 0.0 } };
+                    let sym = if dup { SYMS[g.rng.below(2) as usize] } else { sym };
                     let px = if kind == 0 || g.rng.chance(1, 40) { None } else { Some(grid(&mut g.rng)) };
                     if kind != 0 && px.is_none() {
                         g.stats.bump("priced_type_without_price");
